@@ -37,8 +37,26 @@ LAYOUTS = (
 )
 
 
-def make_grid(K, N, table, rule="fill", fv=0.0):
+def reorder(table, order):
+    """the same links listed in another order (insertion order of faces and of axes)"""
+    keys = list(table)
+    if order == 1:
+        keys = keys[::-1]
+    elif order == 2:
+        keys = keys[1:] + keys[:1]
+    out = {}
+    for f in keys:
+        ax = list(table[f])
+        if order:
+            ax = ax[::-1]
+        out[f] = {A: table[f][A] for A in ax}
+    return out
+
+
+def make_grid(K, N, table, rule="fill", fv=0.0, order=0):
     from xgcm import Grid
+
+    table = reorder(table, order)
 
     ds = xr.Dataset(
         coords={
@@ -86,13 +104,13 @@ def all_width_rule(N):
 OTHERW = (((0, 0)), ((1, 0)), ((0, 2)), ((2, 1)))
 
 
-def check_pad(rec, K, N, table, axis, comp, wA, wB, ri, li, seed, g=None, case=None):
+def check_pad(rec, K, N, table, axis, comp, wA, wB, ri, li, seed, g=None, case=None, order=0):
     from xgcm.padding import pad
 
     rule, fv = RULES[ri]
     layout = LAYOUTS[li]
     if case is None:
-        case = dict(K=K, N=N, table=tab_json(table), axis=axis, comp=comp, wA=list(wA), wB=list(wB), ri=ri, li=li)
+        case = dict(K=K, N=N, table=tab_json(table), axis=axis, comp=comp, wA=list(wA), wB=list(wB), ri=ri, li=li, order=order)
     widths = {axis: tuple(wA), T.OTHER[axis]: tuple(wB)}
     arrays = fields(K, N, seed)
     isvec = comp != "s"
@@ -116,7 +134,7 @@ def check_pad(rec, K, N, table, axis, comp, wA, wB, ri, li, seed, g=None, case=N
     rec.counters["sign_flipped"] += flips
     if g is None:
         try:
-            g = make_grid(K, N, table)
+            g = make_grid(K, N, table, order=order)
         except Exception as e:
             rec.violation("constructor", "raise:" + exc_sig(e), case, "a Grid", f"{type(e).__name__}: {e}"[:200])
             return
@@ -309,8 +327,9 @@ def shards(tier, seed):
 
 def run_table(rec, K, N, table, ti, seed, per=4, layouts=(0,)):
     g = None
+    order = ti % 3
     try:
-        g = make_grid(K, N, table)
+        g = make_grid(K, N, table, order=order)
     except Exception as e:
         rec.case(("ctor", K, N, tab_json(table)), True)
         rec.violation("constructor", "raise:" + exc_sig(e), dict(K=K, N=N, table=tab_json(table), axis="X", comp="s", wA=[1, 1], wB=[0, 0], ri=0, li=0),
@@ -325,7 +344,7 @@ def run_table(rec, K, N, table, ti, seed, per=4, layouts=(0,)):
                 wB = OTHERW[(ti + j) % len(OTHERW)]
                 wB = tuple(min(w, min(3, N)) for w in wB)
                 li = layouts[(ti + j) % len(layouts)]
-                check_pad(rec, K, N, table, axis, comp, wA, wB, ri, li, seed, g)
+                check_pad(rec, K, N, table, axis, comp, wA, wB, ri, li, seed, g, order=order)
                 j += 1
 
 
@@ -367,4 +386,4 @@ def run_shard(shard, tier, seed, rec):
 def replay_case(case, seed, rec):
     table = tab_from_json(case["table"])
     check_pad(rec, case["K"], case["N"], table, case["axis"], case["comp"], tuple(case["wA"]), tuple(case["wB"]),
-              case["ri"], case["li"], seed)
+              case["ri"], case["li"], seed, order=case.get("order", 0))
